@@ -305,7 +305,8 @@ def _real_compile(td: str, main: str, lookup: list[str]) -> dict:
         c.compile(src, td + main)
     except Exception as e:
         return sut.raised(e)
-    inc = sorted(os.path.realpath(p)[len(os.path.realpath(td)):] for p in IncludedUsageMap(c.source_map, td + main).included_files)
+    # same footing as the simulated run: textual paths, only the temp-directory prefix removed
+    inc = sorted(p[len(td):] if p.startswith(td) else p for p in IncludedUsageMap(c.source_map, td + main).included_files)
     return {"ok": model.compile_digest(c), "included_files": inc}
 
 
